@@ -421,6 +421,10 @@ def run(case, ctx):
                 touched.append(name)
             if name in m.store and op[2] in ("Constant", "Event", "Disallow", "ReadOnly5"):
                 continue
+            if op[2] == "ReadOnly" and name not in m.store and name in o.__dict__:
+                # (a deletion on a listened-to name re-materialises the default for its notification: the name holds a value
+                #  again; a write-once trait over a name that already holds a value is the same ungenerated situation)
+                continue
             fires = name not in inst and name not in explicit and name not in cached
             o.add_trait(name, mk(op[2]))
             inst[name] = op[2]
